@@ -716,6 +716,22 @@ class Program:
                 self.roots[r["root"]] = r["node"]
         self._reach = {}
 
+    def resolve_trait_call(self, c, tmap):
+        """`<S as Trait>::method` with S a type parameter instantiated by tmap -> Callee of the crate impl's method."""
+        if c.kind != "Unresolved" or not c.trait or not c.syn_args:
+            return None
+        st = str(c.syn_args[0]).lstrip("&").strip()
+        if st not in tmap:
+            return None
+        self_ty = tmap[st]
+        method = c.syn_path.rsplit("::", 1)[-1]
+        b = self.impl_fn(self_ty, c.trait, method)
+        if b is None:
+            return None
+        fnj = {"path": b.path, "args": [], "local": True, "crate": c.crate, "trait": c.trait,
+               "resolved": {"path": b.path, "args": [], "local": True, "crate": c.crate, "kind": "Item", "id": b.path}}
+        return Callee(fnj)
+
     def _discr_of(self, adt, vi):
         """Discriminant value of variant index vi of an ADT (explicit discriminants of crate enums; else the index)."""
         a = self.facts["adts"].get(adt) if adt else None
